@@ -27,6 +27,24 @@ Definition expected_reply (r : request) : option mtype :=
 
 Definition is_execute (r : request) : bool := match r_type r with RExecute => true | _ => false end.
 
+(* broadcast types the property demands, in order (stdout stream messages aside) *)
+Definition expected_iopub (r : request) : list mtype :=
+  match r_type r with
+  | RExecute =>
+      match r_outcome r with
+      | ExValue => [MStatusBusy; MExecuteInput; MExecuteResult; MStatusIdle]
+      | ExNone => [MStatusBusy; MExecuteInput; MStatusIdle]
+      | ExError | ExSyntax => [MStatusBusy; MExecuteInput; MError; MStatusIdle]
+      end
+  | _ => [MStatusBusy; MStatusIdle]
+  end.
+
+Definition ok_cell (r : request) : bool :=
+  is_execute r && match r_outcome r with ExNone | ExValue => true | _ => false end.
+
+Definition strip_stream (g : list out) : list out := filter (fun o => negb (is_stream o)) g.
+Definition count_stream (g : list out) : nat := length (filter is_stream g).
+
 Definition group_ok (ids : list bytes) (c : N) (r : request) (g : list out) : bool :=
   forallb (fun o => o_sig_ok o && o_parent_ok o) g &&
   (let sh := filter is_shell g in
@@ -40,10 +58,16 @@ Definition group_ok (ids : list bytes) (c : N) (r : request) (g : list out) : bo
    | None => is_nil sh
    end) &&
   (let io := filter (fun o => negb (is_shell o)) g in
+   (* results, errors and the busy/idle bracket, in order; stdout anywhere before the closing idle *)
+   list_eqb mtype_eqb (map o_type (strip_stream io)) (expected_iopub r) &&
    match io with
    | first :: _ => mtype_eqb (o_type first) MStatusBusy && mtype_eqb (o_type (last io first)) MStatusIdle
    | [] => false
-   end).
+   end) &&
+  (* every execution_count shown is the counter of this request *)
+  (if is_execute r then forallb (fun o => match o_count o with None => true | Some k => N.eqb k c end) g else true) &&
+  (* a cell that runs to completion shows exactly its stdout lines *)
+  (if ok_cell r then Nat.eqb (count_stream g) (N.to_nat (r_stdout r)) else true).
 
 Section Spec.
   Variable hmac : list bytes -> bytes.
@@ -93,9 +117,6 @@ Fixpoint tbl_lookup (t : list (list bytes * bytes)) (k : list bytes) : bytes :=
   | [] => []
   | (k', v) :: r => if frames_eqb k k' then v else tbl_lookup r k
   end.
-
-Definition strip_stream (g : list out) : list out := filter (fun o => negb (is_stream o)) g.
-Definition count_stream (g : list out) : nat := length (filter is_stream g).
 
 Definition group_matches (m o : list out) : bool :=
   list_eqb out_eqb (strip_stream m) (strip_stream o)
